@@ -4,6 +4,15 @@ and properties.jsonl (everything not claimed goes under not_applicable with its 
 import json, os
 V = os.path.dirname(os.path.dirname(os.path.abspath(__file__)))
 entries = json.load(open(os.path.join(V, "tools", "manifest_entries.json")))
+d = os.path.join(V, "tools", "manifest_entries.d")
+if os.path.isdir(d):
+    for fn in sorted(os.listdir(d)):
+        if fn.endswith(".json"):
+            e = json.load(open(os.path.join(d, fn)))
+            if e.get("claimed", True):
+                entries["claimed"][e["property_id"]] = e
+            else:
+                entries["unclaimed"][e["property_id"]] = e["reason"]
 props = [json.loads(l) for l in open(os.path.join(V, "properties.jsonl"))]
 checks, na = [], []
 for p in props:
